@@ -378,6 +378,13 @@ func (a *oAnalysis) pass() bool {
 								set(a.writes, fn, pi, "copy(dst) at "+a.pos(x))
 							}
 						}
+						// append(p, ...) writes behind len(p) into the caller's backing array whenever
+						// it has spare capacity (T.Slice(ranges[:1]...) with ranges of three entries)
+						if bi.Name() == "append" && len(cc.Args) > 1 && isMetaSlice(cc.Args[0].Type()) {
+							for _, pi := range a.paramOrigins(cc.Args[0], fn) {
+								set(a.writes, fn, pi, "append into the argument's backing array at "+a.pos(x))
+							}
+						}
 						continue
 					}
 					callees := a.callees(cc)
